@@ -142,9 +142,8 @@ func runC11(res *lib.Result, tier string, seed int64, args []string) error {
 				continue
 			}
 			gs, ms, ss := strings.Join(got, " "), strings.Join(model, " "), strings.Join(spec, " ")
-			excused := o.class != "" || traversalDiffers(occs, o.name)
 			if gs != ms {
-				res.AddViolation("impl-vs-model", fmt.Sprintf("rename edits [%s], the reference model predicts [%s], the binding class is [%s]", gs, ms, ss), caseText, !(gs != ss && !excused))
+				res.AddViolation("impl-vs-model", fmt.Sprintf("rename edits [%s], the reference model predicts [%s], the binding class is [%s]", gs, ms, ss), caseText, !(gs != ss))
 				continue
 			}
 			// (d) apply and re-bind
@@ -182,12 +181,7 @@ func runC11(res *lib.Result, tier string, seed int64, args []string) error {
 				}
 			}
 			if problem != "" {
-				if excused {
-					res.HitKnown("C11-K1", "rename started from / touching an occurrence in a C05-K1/K2 situation rewrites a set that is not the variable's binding class, so the renamed program binds differently", caseText+"\n"+problem)
-					res.Dist("hit.C11-K1")
-				} else {
-					res.AddViolation("impl-vs-spec", "applying the rename changes the binding structure: "+problem, caseText, false)
-				}
+				res.AddViolation("impl-vs-spec", "applying the rename changes the binding structure: "+problem, caseText, false)
 			}
 		}
 		sess.Close()
